@@ -710,6 +710,27 @@ func limitBatchLoop(c *Ctx, lr *limitRoles, rule string) {
 		if !ok && len(problems) == 0 {
 			problems = append(problems, "batch loop is not a counted loop bounded by Limit.Quantity")
 		}
+		// the batch cannot be skipped: no return of the batch function is reachable without entering
+		// the loop (a rotated loop is entered through its pre-test 0 < Quantity, which is part of it)
+		isQuantityTest := func(e CondEdge) bool {
+			iff, isIf := e.From.Instrs[len(e.From.Instrs)-1].(*ssa.If)
+			if !isIf {
+				return false
+			}
+			cm := p.NormCmp(iff.Cond, e.Succ == 0)
+			if cm == nil {
+				return false
+			}
+			for _, side := range []*Sym{cm.L, cm.R} {
+				if _, path, okp := deepStrip(side).FieldPath(); okp && strings.Join(path, ".") == "opts.Limit.Quantity" {
+					return true
+				}
+			}
+			return false
+		}
+		for _, ret := range returnsBypassingExcept(fn, loop, isQuantityTest) {
+			problems = append(problems, "the batch is skipped altogether on the path to "+p.InstrPos(ret)+": an interval passes in which nothing is read although elements may arrive at any moment")
+		}
 		// loop entry: the pre-test 0 < Quantity or direct entry
 	}
 	c.R.Check(len(problems) == 0, rule, p.FnKey(fn)+"#loop", p.Pos(fn.Pos()), "counted loop 0..Limit.Quantity around the single receive", strings.Join(dedup(problems), "; "))
